@@ -60,7 +60,8 @@ type clientSpec struct {
 	callback int
 	signers  []*signerSpec // all signers of all publickey methods
 	hasRSA   bool
-	loops    bool // some persona keeps this client going up to the documented cap
+	core     bool // explored one level deeper in the thorough tier
+	skeleton int  // signer-kind configurations: index of the method skeleton
 }
 
 func newClient(callback int, ms ...methodSpec) *clientSpec {
@@ -233,7 +234,7 @@ func defaultReply(persona, q int) reply {
 }
 
 // menu lists the answers to a request of kind q; entry 0 is the persona's default.
-func menu(persona, q int, bannerLeft, extLeft int) []reply {
+func menu(persona, q int, bannerLeft, extLeft int, slim bool) []reply {
 	def := defaultReply(persona, q)
 	out := []reply{def}
 	add := func(r reply) {
@@ -250,6 +251,9 @@ func menu(persona, q int, bannerLeft, extLeft int) []reply {
 	}
 	for _, partial := range []bool{false, true} {
 		for mask := 7; mask >= 0; mask-- {
+			if slim && mask != 7 && mask != 5 && mask != 2 && mask != 0 {
+				continue // all, all but publickey, publickey only, none
+			}
 			add(reply{kind: rFail, mask: mask, partial: partial})
 		}
 	}
@@ -279,22 +283,26 @@ func menu(persona, q int, bannerLeft, extLeft int) []reply {
 	return out
 }
 
-var menuCache [3][8][2][3][]reply
+var menuCache [2][3][8][2][3][]reply
 
 func init() {
 	for p := 0; p < 3; p++ {
 		for q := 0; q < 8; q++ {
 			for b := 0; b < 2; b++ {
 				for x := 0; x < 3; x++ {
-					menuCache[p][q][b][x] = menu(p, q, b, x)
+					menuCache[0][p][q][b][x] = menu(p, q, b, x, false)
+					menuCache[1][p][q][b][x] = menu(p, q, b, x, true)
 				}
 			}
 		}
 	}
 }
 
-func cachedMenu(persona, q, bannerLeft, extLeft int) []reply {
-	return menuCache[persona][q][bannerLeft][extLeft]
+func cachedMenu(persona, q, bannerLeft, extLeft int, slim bool) []reply {
+	if slim {
+		return menuCache[1][persona][q][bannerLeft][extLeft]
+	}
+	return menuCache[0][persona][q][bannerLeft][extLeft]
 }
 
 // EXT_INFO variants delivered before SERVICE_ACCEPT (outer dimension).
@@ -369,7 +377,8 @@ type execution struct {
 	persona int
 	ext     int
 	ch      *vf.Chooser
-	window  int // choice points open to deviations
+	window  int  // choice points open to deviations
+	slim    bool // reduced set of method lists in the FAILURE answers
 
 	queue  []qitem
 	pend   *ref.ClientMsg
@@ -506,7 +515,7 @@ func (e *execution) push(pkt []byte, effect func()) { e.queue = append(e.queue, 
 // decide picks the answer to the pending request and queues its packets.
 func (e *execution) decide() {
 	q, m, sp := e.pendQ, e.pend, e.pendSp
-	mn := cachedMenu(e.persona, q, e.banner, e.extra)
+	mn := cachedMenu(e.persona, q, e.banner, e.extra, e.slim)
 	ci := e.choose(len(mn))
 	r := mn[ci]
 	if ci != 0 {
